@@ -173,6 +173,17 @@ def nontrivial(scn: dict) -> bool:
     return False
 
 
+def doubled_case(scn: dict) -> bool:
+    """An accepted case in which a mapped reaction consumes or produces the same compound twice and that compound has
+    >= 2 label positions (unit-major vs position-major numbering of a reaction side's atoms)."""
+    if scn["outcome"] != "ok":
+        return False
+    b = scn["b"]
+    nl = fn_to_dict(b["nl"])
+    return any(r["mapped"] and side.count(c) >= 2 and int(nl[c]) >= 2
+               for r in b["rxns"] for side in (r["subs"], r["prods"]) for c in set(side))
+
+
 def case_key(scn: dict) -> str:
     return json.dumps([scn["b"]["nl"], [[r["name"], r["map"]] for r in scn["b"]["rxns"]], scn.get("req")], sort_keys=True)
 
@@ -421,7 +432,10 @@ def run(ctx: Ctx) -> int:
     n_rej = sum(1 for s in scns if s["outcome"] == "rejected")
     if n_rej == 0 or n_rej == len(scns):
         raise MachineryError("the case family does not contain both accepted and rejected maps")
-    rep.notes["cases"] = {"total": len(scns), "rejected_expected": n_rej,
+    n_dbl = sum(1 for s in scns if doubled_case(s))
+    if n_dbl < 100:
+        raise MachineryError(f"only {n_dbl} cases with a doubled compound that has >= 2 label positions")
+    rep.notes["cases"] = {"total": len(scns), "rejected_expected": n_rej, "doubled_multi_position": n_dbl,
                           "by_template": {t: sum(1 for s in scns if s["tpl"] == t) for t in ALL_TPLS}}
     # ---- binding self-test: one corrupted expected value must be noticed by the comparison ---------------------
     probe = next(s for s in scns if s["outcome"] == "ok" and s["tpl"] == "bi")
